@@ -262,8 +262,9 @@ func (c *Client) connect() error {
 			for {
 				val, err := stanza.NextPacket(c.transport.GetDecoder())
 				if err != nil {
-					c.ErrorHandler(err)
-					c.disconnected(state)
+					// The failure is reported by the error we return: no session was established,
+					// so there is no disconnection to announce (a StreamManager would start a
+					// second reconnection loop from here).
 					return
 				}
 				switch val.(type) {
